@@ -166,4 +166,9 @@ example : ServerInv (((Server.init 16).execOn { now := 0 } 3 [ofStr "SELECT", of
     [ofStr "ZADD", [107], ofStr "nan", [109]]).2 :=
   keeps_serving _ _ _ _ (keeps_serving _ _ _ _ (init_inv 16 (by decide)))
 
+/-- garbage on one connection, a command on another, a client leaving -/
+example : ServerInv ([Step.serve { now := 0 } 1 [10, 42, 255], .serve { now := 1 } 2 (Resp.encodeCmd [ofStr "LPUSH", [107], [118]]), .close 1].foldl
+    step (Server.init 16)) :=
+  keeps_serving_history 16 (by decide) _
+
 end Exec.C04
